@@ -109,3 +109,24 @@ for _tag, _name, _want in (("code_name_of_a_population", "adults", "adults"), ("
         raises=({} if _want else {"Exception": "True"}), raises_props=["C16", "C18"],
         ensures=([("C16.a_code_name_or_label_resolves_to_the_code_name", "result == %r" % _want)] if _want else []),
         defined_props=["C16", "C18"])
+
+
+# ---- ProgramSet.validate (C18 "missing required data"): one program of the loop -- a program that targets no population, or no compartment while the
+# program set lists compartments, is refused; any other program is accepted
+def _env_validate(pops, comps, has_comps):
+    def make(it):
+        from pyvc.interp import PyObjV
+        from pyvc import source
+
+        pm = source.load("programs")
+        return {"self": PyObjV("ProgramSet", pm, {"name": "ps", "comps": ({"sus": {"label": "S"}} if has_comps else {})}), "prog": PyObjV("Program", pm, {"name": "prog", "target_pops": list(pops), "target_comps": list(comps)})}
+
+    return make
+
+
+for _tag, _pops, _comps, _has, _refused in (("targets_both", ["adults"], ["sus"], True, False), ("no_compartment_targeted", ["adults"], [], True, True), ("no_population_targeted", [], ["sus"], True, True),
+                                            ("parameters_only_program_set", ["adults"], [], False, False)):
+    CONTRACTS["programs:ProgramSet.validate#%s" % _tag] = dict(
+        schema=schema, fragment={"iter": "self.programs.values()"}, make_env=_env_validate(_pops, _comps, _has),
+        raises=({"Exception": "True"} if _refused else {}), raises_props=["C18"],
+        ensures=([] if _refused else [("C18.a_program_with_targets_is_accepted", "True")]), defined_props=["C18"])
